@@ -109,8 +109,12 @@ def run_C20(ctx, args):
     known = {k["id"] for k in ctx.known()}
     k = "k1" if "C20-1" in known else "k0"
     # ---- E3
-    base = "MC_Rounds20" if quick else "MC_Rounds20_thorough"
-    ctx.tlc_mc(d, "MC_Rounds20.tla", base + (".cfg" if k == "k1" else "_noalias.cfg"), workers=8, timeout=2400)
+    # two driven chains, no bound on the number of operations (complete, deterministic graph) ...
+    ctx.tlc_mc(d, "MC_Rounds20.tla", "MC_Rounds20" + (".cfg" if k == "k1" else "_noalias.cfg"), workers=8, timeout=2400)
+    if not quick:
+        # ... and three driven chains, at most 7 operations (the bound is hidden from the VIEW: with several
+        # workers the explored set can differ by a few states between runs)
+        ctx.tlc_mc(d, "MC_Rounds20.tla", "MC_Rounds20_thorough" + (".cfg" if k == "k1" else "_noalias.cfg"), workers=8, timeout=3000)
     for w in ("ReachBackLink", "ReachDummy"):
         ctx.tlc_mc(d, "MC_Rounds20.tla", "MC_Rounds20_%s.cfg" % w, workers=4, timeout=900, expect_violation=w, count=False)
     ctx.exhaustive = True
